@@ -857,24 +857,24 @@ func checkProperty(prop, tier string, seed uint64, runs, budget, workers int, re
 	wall := time.Since(start).Seconds()
 	sort.Strings(knownList)
 	cov := map[string]any{
-		"evaluations":           evaluations,
-		"distinct_nontrivial":   len(nontrivial),
-		"distinct_fingerprints": len(fps),
-		"rule":                  in.Rule,
-		"samples":               samples,
-		"events_simulated_time": agg.Events,
-		"ops_by_kind":           agg.Ops,
-		"faults_fired":          agg.Faults,
-		"probes":                agg.Probes,
-		"runs_per_hour":         int(float64(evaluations) / wall * 3600),
-		"seeds_per_hour":        int(float64(evaluations) / wall * 3600),
-		"workers":               workers,
-		"flavor":                in.Flavor,
-		"map_seam":              bi.MapSeam,
-		"real_vs_stub":          in.RealVsStub,
+		"evaluations":            evaluations,
+		"distinct_nontrivial":    len(nontrivial),
+		"distinct_fingerprints":  len(fps),
+		"rule":                   in.Rule,
+		"samples":                samples,
+		"events_simulated_time":  agg.Events,
+		"ops_by_kind":            agg.Ops,
+		"faults_fired":           agg.Faults,
+		"probes":                 agg.Probes,
+		"runs_per_hour":          int(float64(evaluations) / wall * 3600),
+		"seeds_per_hour":         int(float64(evaluations) / wall * 3600),
+		"workers":                workers,
+		"flavor":                 in.Flavor,
+		"map_seam":               bi.MapSeam,
+		"real_vs_stub":           in.RealVsStub,
 		"known_findings_printed": knownList,
-		"exhaustive":            false,
-		"tree":                  hashTree(),
+		"exhaustive":             false,
+		"tree":                   hashTree(),
 	}
 	if len(samples) == 0 {
 		cov["samples"] = []any{"(every explored case ended in a violation or known finding; see replays)"}
@@ -963,12 +963,13 @@ func replayFatal(bi *buildInfo, in *info, file, tmp string, limit time.Duration)
 // "Does not terminate" is judged on what the worker process does, not on the wall clock alone (a loaded
 // machine stretches wall time arbitrarily, and a case that is slow but finite - a quadratic accessor on a
 // part repeated 10 000 times - is not a hang):
-//   blocked:  no output for `limit` AND the process consumed no CPU time during the last `limit`
-//             (every goroutine waits for something that never comes);
-//   spinning: the process consumed cpuFactor x `limit` of CPU time since its last output (a loop that
-//             makes no progress; with the default 20 s that is 120 CPU-seconds for one case, about
-//             10 000 times the median case);
-//   hard cap: no output for 30 x `limit` of wall time.
+//
+//	blocked:  no output for `limit` AND the process consumed no CPU time during the last `limit`
+//	          (every goroutine waits for something that never comes);
+//	spinning: the process consumed cpuFactor x `limit` of CPU time since its last output (a loop that
+//	          makes no progress; with the default 20 s that is 120 CPU-seconds for one case, about
+//	          10 000 times the median case);
+//	hard cap: no output for 30 x `limit` of wall time.
 const cpuFactor = 6
 
 type liveMon struct {
